@@ -4,6 +4,9 @@ from . import build
 from .llsym import Ptr, NULL, SymStr, M
 
 _F = None
+# channel directory of the write-path harnesses; it contains "rf" on purpose: the writer derives names with strstr(.., "rf"), which must
+# only ever look at the basename
+CHDIR = '/data/drf/ch'
 
 
 def F():
@@ -56,7 +59,7 @@ class WObj:
 
     def fresh_open_state(self, n, d, sc, fc, start, is_continuous, needs_chunking, is_complex=0, nsub=1, max_chunk=None):
         """state right after a successful digital_rf_create_write_hdf5 (as set by the constructor)"""
-        self.set_str('directory', '/data/ch')
+        self.set_str('directory', CHDIR)
         self.set('sub_directory', NULL)
         self.set_str('uuid_str', 'UUID')
         self.ex.mem[self.ptr.region]['cells'][self.ex.key(self.ptr.path + (F()['basename'],))] = SymStr([''])
